@@ -3,12 +3,14 @@ Lean: Props/C09.lean (on top of the protocol model of C10: table of shared locat
 discipline, access sets per model step, theorem `drf`: no two enabled steps of different threads have
 conflicting unprotected non-atomic accesses; uses the quiescence facts of C10).
 Tie: (1) the hooked event logs of the TSan build are accepted by the model (the run follows the model's skeleton);
-(2) support for the access table, which is NOT proved complete: ThreadSanitizer builds of `texel` (the C10 command
+(2) static tie (tools/locktie.py + Bridge/LockFacts.lean): lock sets, atomic types and the member list of the thread-layer classes
+are extracted from the current source and the table's discipline is proved over them (`lock_discipline_guarded`,
+`atomics_are_atomic`, `access_table_complete`); (3) dynamic support for what a lexical analysis cannot see: ThreadSanitizer builds of `texel` (the C10 command
 scripts, Threads 2..8, hooks inert and hooks on) and of `texelutil proofgame -f` (2..16 workers): any TSan
 report is a violation with the session as replay."""
 import os, re, subprocess, time
 from concurrent.futures import ThreadPoolExecutor
-import vlib
+import vlib, locktie
 from checks import c10
 
 TSAN_ENV = {"TSAN_OPTIONS": "halt_on_error=0 exitcode=66 report_signal_unsafe=0 history_size=4 second_deadlock_stack=1"}
@@ -103,6 +105,9 @@ def run(ctx):
     quick = ctx.tier == "quick"
     if ctx.replay:
         rp = ctx.replay["replay"]
+        if rp.get("kind") == "locktie":
+            locktie.regenerate(ctx, "C09")
+            return
         bdir = vlib.cxx_build("tsan", ("texel", "texelutil", "mknet"))
         vlib.lake_build(["driver"])
         if rp.get("kind") == "tsan-proofgame":
@@ -120,13 +125,17 @@ def run(ctx):
                 if ctx.violations: break
         return
     vlib.lean_obligations(ctx)
+    # static tie: lock / atomic / completeness facts regenerated from the current source, Bridge/LockFacts.lean proved over them
+    # (a broken theorem is reported there with the offending sites; the TSan runs below may add a failing session)
+    locktie.regenerate(ctx, "C09")
     bdir = vlib.cxx_build("tsan", ("texel", "texelutil", "mknet"))
     net = vlib.net_file(vlib.cxx_build("plain", ("mknet",)), "material", 1)
     texel = os.path.join(bdir, "texel")
     ctx.cov["rule"] = ("TSan build: C10 command scripts x Threads 2..8 (hooks inert: no event log, no yields; and hooks on with seeded yields, "
                        "logs replayed through the model); `texelutil -j N proofgame -f` on a list of opening positions for N in 2..16; "
                        "one evaluation = one process run to exit; any ThreadSanitizer report is a violation")
-    ctx.assumptions += ["the table of shared locations in Conc/Access.lean is validated dynamically (TSan), not proved complete",
+    ctx.assumptions += ["the table of shared locations (Conc/Access.lean, Conc/LockTable.lean) is complete for the data members of the six thread-layer classes (theorem access_table_complete over the extracted member list); globals and objects reached through pointers are validated dynamically (TSan) only",
+                        "lock sets are lexical (locktie): which thread runs a function / that set-up and quiesced phases exclude other threads is the trusted function list of Conc/LockTable.lean, supported by the model (G3.s1, quiescent_at_ack) and TSan",
                         "ThreadSanitizer's happens-before analysis covers only the interleavings that occurred in these runs",
                         "relaxed std::atomic accesses (transposition table slots, time limits, node counters) are race-free by definition",
                         "std::mutex / std::condition_variable / std::thread::join behave as specified (trusted)"]
